@@ -132,8 +132,11 @@ def _num(s: str) -> int:
     return v
 
 
+TSCHEMA = "shop" if env_int("VF_TSCHEMA", 0) else None  # the table under test is written schema-qualified
+
+
 def table_tokens(cols_tokens, tail_items=()):
-    toks = kw("CREATE", "TABLE") + ident("t") + [("LP", "(")]
+    toks = kw("CREATE", "TABLE") + (ident(TSCHEMA) + [("DOT", ".")] if TSCHEMA else []) + ident("t") + [("LP", "(")]
     for i, ct in enumerate(cols_tokens):
         if i:
             toks.append(("COMMA", ","))
@@ -149,7 +152,7 @@ def expected_table(cols, pk, **extra):
     for c in cols:
         if c["name"] in pk:
             c["nullable"] = False
-    t = {"table_name": "t", "schema": None, "primary_key": pk, "columns": cols, "alter": {}, "checks": [], "index": [],
+    t = {"table_name": "t", "schema": TSCHEMA, "primary_key": pk, "columns": cols, "alter": {}, "checks": [], "index": [],
          "partitioned_by": [], "tablespace": None}
     t.update(extra)
     return t
